@@ -37,8 +37,18 @@
 ; strings.HasPrefix and regular-expression matching are uninterpreted
 (declare-fun hasPrefix (GStr GStr) Bool)
 (declare-fun reMatch (Int GStr) Bool)
+(declare-fun gstr.len (GStr) Int)
+; @axiom hasprefix-len
+; @needs hasPrefix
+(assert (forall ((s GStr) (p GStr)) (! (=> (hasPrefix s p) (>= (gstr.len s) (gstr.len p))) :pattern ((hasPrefix s p)))))
 ; code of a (hash, size) digest pair, for ghost sets of digests
 (declare-fun dkey (GStr Int) Int)
+; authentication (C13): the htpasswd secret of a user ("" = no such user), whether a password matches a secret,
+; and whether a function value / handler is one that lets only authenticated requests through
+(declare-fun userSecret (GStr) GStr)
+(declare-fun secretMatches (GStr GStr) Bool)
+(declare-fun authWrapped (Int) Bool)
+(declare-fun writeAuthWrapped (Int) Bool)
 ; name of an open file
 (declare-fun fileName (Int) GStr)
 ; eviction queue (ghost bag of entries handed to the remover)
